@@ -1,6 +1,7 @@
 (* C09 — Month shapes describe exactly the days that exist in the month. *)
 From JV Require Import Sem Gen Spec SpecX.
 From JV.Proofs Require Import SpecFacts Cal Core SpecSets.
+Require JV.Proofs.IterCore.
 Open Scope Z_scope.
 
 (* For every calendar, year and month: either no date falls in the month and the shape is absent, or the
@@ -36,3 +37,15 @@ Example C09_ex :
   shape_of (CR 2342397) 1701 2 = inner_MonthShape_Tailless 17 28 /\ month_count (CR 3145930) 3901 2 = 0 /\
   shape_of (CR 2342397) 1701 3 = inner_MonthShape_Normal 31 /\ shape_of (CR 2299240) 1583 1 = inner_MonthShape_Headless 2 31.
 Proof. repeat split; vm_compute; reflexivity. Qed.
+
+(* nth_date: the k-th existing day of the month as a Date of the calendar — the date of day number
+   [month_base c y m + k - 1], whose label is (y, m, k-th existing day) — when that day number is a 32-bit number;
+   None otherwise (only in the months that straddle the ends of the supported range) and outside 1..len.
+   [day_or_none c j] = Some (the value at_jdn returns for j) if -2^31 <= j < 2^31, None otherwise. *)
+Theorem C09_nth_date : forall c y m s k, ValidCal c -> in_i32 y -> in_u32 k -> Calendar_month_shape (cal_of c) y m = Ret (Some s) ->
+  MonthShape_nth_date s k =
+    Ret (if (1 <=? k) && (k <=? month_count c y (Month_discr m)) then JV.Proofs.IterCore.day_or_none c (JV.Proofs.IterCore.month_base c y m + k - 1) else None) /\
+  (1 <= k <= month_count c y (Month_discr m) ->
+     lbl c (JV.Proofs.IterCore.month_base c y m + k - 1) = (y, Month_discr m, sh_nth (shape_of c y (Month_discr m)) k)).
+Proof. exact JV.Proofs.IterCore.nth_date_all. Qed.
+Print Assumptions C09_nth_date.
